@@ -444,6 +444,6 @@ func callOfWireID(n *Net, id uint64) int {
 }
 
 func init() {
-	Register(&Family{Name: "c07.cancel", Props: []string{"C07", "C06"}, New: func() any { return &C07Params{} }, Gen: genC07, Exec: execC07,
+	Register(&Family{Name: "c07.cancel", ShrinkKeys: []string{"others", "pos"}, Props: []string{"C07", "C06"}, New: func() any { return &C07Params{} }, Gen: genC07, Exec: execC07,
 		Faulty: true, FaultKinds: []string{"ctx.cancel", "ctx.deadline"}})
 }
